@@ -548,7 +548,7 @@ theorem keypath_eval (cfg : Spec.Cfg) (hsv : cfg.sigversion = .TAPROOT) (hpre : 
     (Spec.evalScript cfg (0x20 :: (prog ++ [0xac])) { stack := [sig] }).result =
       match cfg.oracle.schnorr sig prog .TAPROOT 0xFFFFFFFF with
       | .ok () => .ok { ({ stack := [[1]] } : Spec.St) with codeFrom := 0x20 :: (prog ++ [0xac]) }
-      | .error _ => .error .UNKNOWN_ERROR := by
+      | .error x => .error x := by
   rw [evalScript_result]
   have hnsz : ((cfg.sigversion == .BASE || cfg.sigversion == .WITNESS_V0) &&
       decide ((0x20 :: (prog ++ [0xac])).length > Spec.maxScriptSize)) = false := by
